@@ -81,9 +81,9 @@ impl FunctionMarkupPass {
                 returns: ret,
             })
         }
-        // TODO: Handle functions with no return statements
+        // A function without a return statement cannot be analyzed
         else {
-            Err(Box::new(CfgError::UnexpectedError))
+            Err(Box::new(CfgError::NoReturnInFunction(entry.node())))
         }
     }
 }
